@@ -80,7 +80,7 @@ def run(ctx):
     # ---- R07.4 the existence test must wait for the shard: try_* lookups answer "absent" while a writer holds it
     for m in ("try_get", "try_get_mut"):
         for f, bb, t in S.ops.get(m, []):
-            if f.rec.get("ret") == "bool" or any(tt.get("rpath") == f.name for n, g in F.fns.items() if g.rec.get("reachable") for b2, tt in g.calls()):
+            if f.rec.get("ret") == "bool":
                 ctx.bad("R07.4", "%s|non-blocking-existence-test" % f.name,
                         "an existence test must use a blocking lookup: DashMap::%s reports Locked (treated as absent) whenever another thread write-locks the shard, so a put of a live key would be admitted and overwrite it" % m,
                         f.where(bb))
